@@ -92,6 +92,8 @@ def _canon_tree(tree: ast.AST) -> None:
       ``a < b`` -> ``b > a`` and ``a <= b`` -> ``b >= a``
       ``not (a == b)`` -> ``a != b`` (likewise ``is`` / ``in``), De Morgan with the negation inwards
       ``x = x + 1`` -> ``x += 1``
+      ``CONST == x`` -> ``x == CONST`` (operands of ==, !=, is, is not in one order);
+      keyword arguments of calls in alphabetical order
       ``if c: return A else: B`` -> ``if c: return A; B``  (an else after a branch that always leaves)
 
     (the inverses of "name the result before returning it", "name the condition before testing
@@ -152,6 +154,27 @@ def _canon_tree(tree: ast.AST) -> None:
                         blk[i_ + 1 : i_ + 1] = tail
                         changed = True
                         break
+    # operands of == / != / is / is not in one order: the constant (a literal, or an ALL_CAPS name
+    # such as TOKEN_EOF / Mode.STRICT) on the right; otherwise by their text
+    def _rank(e) -> int:
+        if isinstance(e, ast.Constant):
+            return 2
+        last = e.attr if isinstance(e, ast.Attribute) else e.id if isinstance(e, ast.Name) else ""
+        return 1 if last and last.isupper() and len(last) > 1 else 0
+
+    for n in ast.walk(tree):
+        if isinstance(n, ast.Compare) and len(n.ops) == 1 and isinstance(n.ops[0], (ast.Eq, ast.NotEq, ast.Is, ast.IsNot)):
+            a_, b_ = n.left, n.comparators[0]
+            ka, kb = (_rank(a_), ast.unparse(a_)), (_rank(b_), ast.unparse(b_))
+            if ka > kb:
+                n.left, n.comparators[0] = b_, a_
+    # keyword arguments of a call in alphabetical order (`**kw` stays last)
+    for n in ast.walk(tree):
+        if isinstance(n, ast.Call) and len(n.keywords) > 1:
+            named = [k for k in n.keywords if k.arg is not None]
+            star = [k for k in n.keywords if k.arg is None]
+            if not star or n.keywords[-len(star) :] == star:
+                n.keywords = sorted(named, key=lambda k: k.arg) + star
     # `a < b` is written `b > a`, `a <= b` as `b >= a` (single comparisons; for the analysis the
     # order in which the two operands are evaluated is immaterial)
     for n in ast.walk(tree):
